@@ -230,6 +230,12 @@ void SkipRecord(Byte Header, char const* Name, FILE* f) {
         if (!Read4(f, &StringLen)) {
             ChkIO(Name);
         }
+        /* the three counts come from the file: do not let their sum wrap
+           around into a negative (backward) seek distance */
+        if ((RelocCount > 0x03ffffffu) || (ExportCount > 0x03ffffffu)
+            || (StringLen > 0x3fffffffu)) {
+            FormatError(Name, catgetmessage(&MsgCat, Num_FormatTruncatedMsg));
+        }
         Length = (16 * RelocCount) + (16 * ExportCount) + StringLen;
         break;
     default:
@@ -267,7 +273,9 @@ PRelocInfo ReadRelocInfo(FILE* f) {
         /* read global numbers */
 
         if ((Read4(f, &PInfo->RelocCount)) && (Read4(f, &PInfo->ExportCount))
-            && (Read4(f, &StringLen))) {
+            && (Read4(f, &StringLen)) && (PInfo->RelocCount >= 0)
+            && (PInfo->RelocCount <= 0x03ffffff) && (PInfo->ExportCount >= 0)
+            && (PInfo->ExportCount <= 0x03ffffff) && (StringLen <= 0x3fffffffu)) {
             /* allocate memory */
 
             PInfo->RelocEntries
@@ -276,43 +284,41 @@ PRelocInfo ReadRelocInfo(FILE* f) {
                 PInfo->ExportEntries
                         = (PExportEntry)malloc(sizeof(TExportEntry) * PInfo->ExportCount);
                 if ((PInfo->ExportCount == 0) || (PInfo->ExportEntries != NULL)) {
-                    PInfo->Strings = (char*)malloc(sizeof(char) * StringLen);
-                    if ((StringLen == 0) || (PInfo->Strings != NULL)) {
+                    /* one more byte, so that the last name is terminated in any case */
+
+                    PInfo->Strings = (char*)malloc(sizeof(char) * ((size_t)StringLen + 1));
+                    if (PInfo->Strings != NULL) {
+                        Boolean Complete = TRUE;
+
+                        PInfo->Strings[StringLen] = '\0';
+
                         /* read relocation entries */
 
                         for (z = 0, PEntry = PInfo->RelocEntries; z < PInfo->RelocCount;
                              z++, PEntry++) {
-                            if (!Read8(f, &PEntry->Addr)) {
-                                break;
-                            }
-                            if (!Read4(f, &StringPos)) {
+                            if (!Read8(f, &PEntry->Addr) || !Read4(f, &StringPos)
+                                || (StringPos > StringLen) || !Read4(f, &PEntry->Type)) {
+                                Complete = FALSE;
                                 break;
                             }
                             PEntry->Name = PInfo->Strings + StringPos;
-                            if (!Read4(f, &PEntry->Type)) {
-                                break;
-                            }
                         }
 
                         /* read export entries */
 
-                        for (z = 0, PExp = PInfo->ExportEntries; z < PInfo->ExportCount;
-                             z++, PExp++) {
-                            if (!Read4(f, &StringPos)) {
+                        for (z = 0, PExp = PInfo->ExportEntries;
+                             Complete && (z < PInfo->ExportCount); z++, PExp++) {
+                            if (!Read4(f, &StringPos) || (StringPos > StringLen)
+                                || !Read4(f, &PExp->Flags) || !Read8(f, &PExp->Value)) {
+                                Complete = FALSE;
                                 break;
                             }
                             PExp->Name = PInfo->Strings + StringPos;
-                            if (!Read4(f, &PExp->Flags)) {
-                                break;
-                            }
-                            if (!Read8(f, &PExp->Value)) {
-                                break;
-                            }
                         }
 
                         /* read strings */
 
-                        if (z == PInfo->ExportCount) {
+                        if (Complete) {
                             OK = ((fread(PInfo->Strings, 1, StringLen, f)) == StringLen);
                         }
                     }
